@@ -291,7 +291,7 @@ def run_thread_script(spec: dict[str, Any]) -> dict[str, Any]:
 
 class C20(Check):
     pid = 'C20'
-    level = 'fault_enumeration'
+    level = 'exploration'
     title = 'lock primitives give the exclusion they document'
     rule = ('case = one program (2-4 tasks x 1-3 R/W acquisitions x 1-2 '
             'yields inside, optional yield before, optional raising body) x '
